@@ -203,3 +203,27 @@ Proof.
   rewrite <- Hrow. apply Qle_trans with (g t); [apply Hmono; exact Hq|apply Hunder; exact Hrange].
 Qed.
 End GreatestBelow.
+
+(* both statements bundled, as quoted by props/C07.v *)
+Lemma greatest_above tq : 0 <= tq -> forall Ts Hs, List.length Ts = List.length Hs -> mono true tq (combine Ts Hs) ->
+  (forall x x', last Ts 0 <= x -> x <= x' -> x' <= hd 0 Ts -> runmin_above Ts Hs x <= gcc_at Ts Hs x')
+  /\ (forall x x', last Ts 0 <= x -> x <= x' -> x' <= hd 0 Ts -> runmin_above Ts Hs x <= runmin_above Ts Hs x')
+  /\ (forall (g : Q -> Q) x, (forall u v, u <= v -> g u <= g v) ->
+       (forall u, last Ts 0 <= u <= hd 0 Ts -> g u <= gcc_at Ts Hs u) ->
+       last Ts 0 <= x <= hd 0 Ts -> g x <= runmin_above Ts Hs x).
+Proof.
+  intros Ht Ts Hs E H. split; [|split].
+  - exact (runmin_above_lower_bound tq Ts Hs Ht E H).
+  - exact (runmin_above_monotone tq Ts Hs Ht E H).
+  - exact (runmin_above_greatest tq Ts Hs Ht E H).
+Qed.
+Lemma greatest_below tq : 0 <= tq -> forall Ts Hs, List.length Ts = List.length Hs -> mono true tq (combine Ts Hs) ->
+  (forall x x', last Ts 0 <= x' -> x' <= x -> x <= hd 0 Ts -> runmin_below Ts Hs x <= gcc_at Ts Hs x')
+  /\ (forall (g : Q -> Q) x, (forall u v, u <= v -> g v <= g u) ->
+       (forall u, last Ts 0 <= u <= hd 0 Ts -> g u <= gcc_at Ts Hs u) ->
+       last Ts 0 <= x <= hd 0 Ts -> g x <= runmin_below Ts Hs x).
+Proof.
+  intros Ht Ts Hs E H. split.
+  - exact (runmin_below_lower_bound tq Ts Hs Ht E H).
+  - exact (runmin_below_greatest tq Ts Hs Ht E H).
+Qed.
